@@ -117,7 +117,8 @@ def simulate_own(module, cfg, **kw):
 
 
 def validate_own(cfg, traces, timeout=1200):
-    slim = [{"id": t["id"], "cfg": t["cfg"], "steps": t["steps"]} for t in traces]
+    slim = [{"id": t["id"], "cfg": t["cfg"], "steps": t["steps"],
+             "env": {"kind": str((t.get("env") or {}).get("kind") or "none")}} for t in traces]
     with T.Scratch() as sc:
         return T.validate_traces(sc, "TraceDtls", cfg, slim, timeout=timeout)
 
@@ -883,6 +884,11 @@ def corrupt_for_binding(traces):
         bad["steps"].insert(i + 1, {"op": "recv", "side": peer(snd["from"]), "kind": snd["kind"],
                                     "data": snd["data"], "st": "connected"})
         out.append((bad, "C04.tampered_accepted"))
+        bad = copy.deepcopy(t)       # a connected side gives up after the altered packet although nobody closed
+        i = next(i for i, s in enumerate(bad["steps"]) if s["op"] == "transit" and s["tam"])
+        snd = next(s for s in bad["steps"] if s["op"] == "send" and s["id"] == bad["steps"][i]["id"])
+        bad["steps"].insert(i + 1, {"op": "state", "side": peer(snd["from"]), "st": "closed"})
+        out.append((bad, "C04.connected_side_gave_up"))
     t = next((t for t in traces if any(v == "failed" for v in next(s for s in t["steps"] if s["op"] == "settled")["st"].values())
               and t["cfg"]["hs"]), None)
     if t is not None:
